@@ -1593,6 +1593,11 @@ async fn scenario(ctx: Arc<RunCtx>, mode: Mode) {
                 }
                 if !ctx.coin("peer.disconnected", 150) {
                     ps.connect(i);
+                    // several simultaneous connections to one peer are legal in libp2p
+                    // (simultaneous dial, inbound + outbound): still one peer, one vote
+                    while ps.model[i].conns.len() < 3 && ctx.coin("peer.extra_connection", 200) {
+                        ps.connect(i);
+                    }
                 }
             }
             // candidate heads: honest heights and forks of them, all valid; a small candidate
